@@ -110,8 +110,22 @@ def gen_grep(rng):
     return out
 
 
+def gen_diffstat(rng):
+    """`git log --stat -p` shape: commit, diff-stat block (paths of any length), then the diff"""
+    out = M.gen_commit(rng)
+    for _ in range(rng.randint(1, 5)):
+        p = rng.choice(["a.rs", "src/lib/" + "deep/" * rng.randint(0, 14) + "file.rs", "日本/ファイル.txt", "a b/c d.txt", "x" * rng.randint(40, 90),
+                        "sub/dir/f.c", "{old => new}/f.c", "a/{b => c}/d.rs"])
+        out.append(f" {p} | {rng.choice(['3 ++-', 'Bin 0 -> 12 bytes', '0', '120 ' + '+' * 30])}")
+    out += [f" {rng.randint(1, 9)} files changed, 3 insertions(+), 1 deletion(-)", ""]
+    return out + M.gen_git_diff(rng, with_commit=False)[0]
+
+
 def gen_input(rng):
     r = rng.random()
+    if r < 0.04:
+        lines = gen_diffstat(rng)
+        return lines, ("\n".join(lines) + "\n").encode("utf-8", "surrogateescape")
     if r < 0.07:
         lines = gen_blame(rng)
         return lines, ("\n".join(lines) + "\n").encode("utf-8", "surrogateescape")
@@ -229,9 +243,18 @@ def run(ctx, rep):
             rep.violation(site, f"delta {' '.join(args)} -> rc={rc} stderr={err[-300:].decode('utf-8', 'replace')!r}",
                           dict(args=args, input_b64=b64(data)))
 
+    # (2d) diff-stat blocks under --relative-paths (delta as git's pager from a subdirectory): every generated block x
+    #      align widths x prefixes
+    for _ in range(ctx.n(12, 150)):
+        data = ("\n".join(gen_diffstat(rng)) + "\n").encode("utf-8", "surrogateescape")
+        for aw in ("0", "5", "48", "200"):
+            jobs.append((["--no-gitconfig", "--relative-paths", "--diff-stat-align-width", aw] + rng.choice([[], ["--hyperlinks"], ["--side-by-side"]]), data))
+
     def one(j):
         args, data = j
-        return ctx.run_delta(args, data, timeout=20)
+        # delta as git's pager from a subdirectory: GIT_PREFIX is set whenever relative paths are asked for
+        env = {"GIT_PREFIX": ["sub/", "sub/dir/", "a b/", "日本/"][len(data) % 4]} if "--relative-paths" in args else None
+        return ctx.run_delta(args, data, timeout=20, env=env)
     for (args, data), (rc, out, err) in zip(jobs, parallel_map(one, jobs)):
         rep.case(key=("bin", tuple(args), data), nontrivial=True,
                  sample=dict(level="binary", args=args, input_head=data[:80].decode("utf-8", "replace")))
@@ -240,14 +263,15 @@ def run(ctx, rep):
         if site:
             rep.count("fail:" + site)
             rep.violation(site, f"delta {' '.join(args)} -> rc={rc} stderr={err[-300:].decode('utf-8', 'replace')!r}",
-                          dict(args=args, input_b64=b64(data)))
+                          dict(args=args, input_b64=b64(data),
+                               env=({"GIT_PREFIX": ["sub/", "sub/dir/", "a b/", "日本/"][len(data) % 4]} if "--relative-paths" in args else None)))
 
 
 def replay(ctx, rep, obj):
     import base64
     c = obj["case"]
     if "input_b64" in c:
-        rc, out, err = ctx.run_delta(c["args"], base64.b64decode(c["input_b64"]), timeout=20)
+        rc, out, err = ctx.run_delta(c["args"], base64.b64decode(c["input_b64"]), timeout=20, env=c.get("env"))
         print("rc", rc, err[-400:].decode("utf-8", "replace"))
         site = classify_failure(rc, err)
         if site:
